@@ -16,6 +16,7 @@ import (
 
 	"github.com/johannesboyne/gofakes3"
 	"github.com/johannesboyne/gofakes3/internal/s3io"
+	"github.com/johannesboyne/gofakes3/internal/verifhook"
 	"github.com/spf13/afero"
 )
 
@@ -404,6 +405,7 @@ func (db *SingleBucketBackend) PutObject(
 		return result, err
 	}
 	tmpFilePath := f.Name()
+	verifhook.At("fs.put.before-copy")
 
 	var closed, committed bool
 	defer func() {
@@ -431,6 +433,7 @@ func (db *SingleBucketBackend) PutObject(
 		return result, err
 	}
 	closed = true
+	verifhook.At("fs.put.before-meta")
 
 	if conflict, err := keyConflict(db.fs, "", objectName); err != nil {
 		return result, err
@@ -458,6 +461,7 @@ func (db *SingleBucketBackend) PutObject(
 	if err != nil {
 		return result, err
 	}
+	verifhook.At("fs.put.before-rename")
 
 	if objectDir != "." {
 		if err := db.fs.MkdirAll(objectDir, 0777); err != nil {
@@ -471,6 +475,7 @@ func (db *SingleBucketBackend) PutObject(
 		return result, err
 	}
 	committed = true
+	verifhook.At("fs.put.after-rename")
 
 	return result, nil
 }
@@ -536,6 +541,7 @@ func (db *SingleBucketBackend) deleteObjectLocked(bucketName, objectName string)
 		return err
 	}
 	removeEmptyDirs(db.fs, "", path.Dir(objectName))
+	verifhook.At("fs.delete.between")
 	if err := db.metaStore.deleteMeta(db.metaStore.metaPath(bucketName, objectName)); err != nil {
 		return err
 	}
